@@ -2,11 +2,14 @@
 from . import rtprop
 
 THEOREMS = ['FlexVerif.doWrap_start', 'FlexVerif.inputOp_start']
-TRANSLATED = ['FlexVerif.C03NextBuf.' + t for t in ('eof_only_when_reader_dry', 'nextBuf_eof_pending', 'nextBuf_nofill', 'nextBuf_read')] + ['FlexVerif.C03NextBufC99.eof_only_when_reader_dry_c99']
+TRANSLATED = ['FlexVerif.C03NextBuf.' + t for t in ('eof_only_when_reader_dry', 'nextBuf_eof_pending', 'nextBuf_nofill', 'nextBuf_read')] + ['FlexVerif.C03NextBufC99.eof_only_when_reader_dry_c99', 'FlexVerif.C11Flush.init_spec']
 
 
 def run(ctx):
-    from . import c03
+    from . import c03, c11
+    info9, err9 = c11.regen_flush()
+    if err9:
+        ctx.violation('translator of yy_flush_buffer() / yy_init_buffer() gave up: ' + err9, {'error': err9}, no_input=True)
     info, err = c03.regen_nextbuf()
     if err:
         ctx.violation('translator of yy_get_next_buffer() gave up: ' + err, {'error': err}, no_input=True)
